@@ -1,5 +1,6 @@
 import RSV.Props.C17
 import RSV.Model.Kernels
+import RSV.Gen.Switch
 /-!
 # C08 — every SIMD kernel computes the same bytes as the scalar field arithmetic
 
@@ -80,6 +81,22 @@ theorem C08_avx2_slots (outputs i j i' j' : Nat) (hi : i < outputs) (hi' : i' < 
     have := C08_slots_injective outputs i j i' j' hi hi' e
     exact h (by rw [this.1, this.2])
   omega
+
+/-- family of a switch function code (0,1 AVX2; 2,3 AVX512+GFNI; 4,5 AVX+GFNI; odd = xor variant) -/
+def familyOf (code : Nat) : Option Family :=
+  if code < 2 then some .avx2 else if code < 4 then some .gfni else if code < 6 then some .avxgfni else none
+
+set_option maxRecDepth 100000 in
+/-- Tie A for the kernel dispatch: the six switch functions regenerated from `galois_gen_switch_amd64.go` have
+exactly the 600 cases (1..10 inputs × 1..10 outputs), pairwise distinct, every case calls the kernel whose name
+carries its own shape (and `Xor` iff the switch is the xor one), and returns the count with the granularity
+the model assumes -/
+theorem C08_switch_table :
+    RSV.Gen.kernelSwitch.length = 600 ∧
+    (∀ e ∈ RSV.Gen.kernelSwitch, e.2.2.2.2 = true ∧ 1 ≤ e.2.1 ∧ e.2.1 ≤ 10 ∧ 1 ≤ e.2.2.1 ∧ e.2.2.1 ≤ 10 ∧
+      (familyOf e.1).map (fun f => gran f e.2.2.1) = some e.2.2.2.1) ∧
+    (RSV.Gen.kernelSwitch.map fun e => (e.1, e.2.1, e.2.2.1)).Nodup := by
+  decide +kernel
 
 example : count .avx2 2 1000 = 960 ∧ count .avx2 10 935 = 928 ∧ count .gfni 10 997 = 960 ∧ count .avxgfni 4 200 = 192 := by decide
 
